@@ -1,4 +1,245 @@
-(* C13 — the sparse (per-value) solver. *)
-From Coq Require Import List Arith Bool Lia Setoid Morphisms.
+(* C13 — the sparse (per-value) solver: analysis/dfa/sparse/dfa.go:Instance.Forward. *)
+From Coq Require Import List Arith Bool Lia Setoid Morphisms NArith.
 Import ListNotations.
-Require Import Verif.Model.C13 Verif.Proofs.C13.
+Require Import Verif.Model.C13 Verif.Proofs.C13 Verif.Proofs.C13_Lattices.
+
+Section SparseProofs.
+  Context {F : Type} {L : Semilattice F} {LL : SemilatticeLaws F}.
+  Variable instrs : list (list nat * bool).
+  (* writes_self: a transfer function yields at most one mapping, for the instruction's own value ... *)
+  Variable tself : nat -> (nat -> F) -> option F.
+  Definition transfer_of (i : nat) (m : nat -> F) : list (nat * F) :=
+    match tself i m with Some x => [(i, x)] | None => [] end.
+  (* ... and reads only the states of the instruction's operands *)
+  Hypothesis reads_ops : forall i m m', (forall v, In v (ops_of instrs i) -> m v = m' v) -> tself i m = tself i m'.
+
+  Notation n := (ni instrs).
+  Notation sstep := (sstep_at instrs transfer_of).
+  Notation ops := (ops_of instrs).
+
+  Definition phi_val (i : nat) (m : nat -> F) : F := fold_left (fun d e => merge d (m e)) (ops i) ident.
+  (* the value an instruction is given by one solver step: phis merge their edges, others run the transfer function *)
+  Definition target (i : nat) (m : nat -> F) : option F :=
+    if is_phi instrs i then Some (phi_val i m) else tself i m.
+
+  Lemma target_reads_ops i m m' : (forall v, In v (ops i) -> m v = m' v) -> target i m = target i m'.
+  Proof.
+    intros H. unfold target. destruct (is_phi instrs i); [| apply reads_ops; exact H].
+    f_equal. unfold phi_val. revert H. generalize (@ident F L). induction (ops i) as [|e l IH]; intros d H; simpl; auto.
+    rewrite (H e) by (simpl; auto). apply IH. intros v Hv. apply H. simpl; auto.
+  Qed.
+
+  (* the equations of a solution at instruction i *)
+  Definition fix_at (m : nat -> F) (i : nat) : Prop :=
+    match target i m with Some x => eqv x (m i) = true | None => True end.
+
+  Lemma lookup_cons (m : list (nat * F)) k x v :
+    lookup ((k, x) :: m) v = if Nat.eqb k v then x else lookup m v.
+  Proof. reflexivity. Qed.
+
+  Lemma In_referrers i j : In j (referrers instrs i) <-> j < n /\ In i (ops j).
+  Proof.
+    unfold referrers. rewrite filter_In, in_seq, memb_In. split; intros [A B]; split; auto; lia.
+  Qed.
+
+  (* one step, computed *)
+  Lemma sstep_eq i s :
+    sstep i s =
+    let s1 := mkS (smap s) (rm i (swork s)) in
+    match target i (value s) with
+    | None => s1
+    | Some x => if eqv x (value s i) then s1
+                else mkS ((i, x) :: smap s) (fold_left enqueue (referrers instrs i) (rm i (swork s)))
+    end.
+  Proof.
+    unfold sstep_at, target, transfer_of. simpl.
+    change (value (mkS (smap s) (rm i (swork s)))) with (value s).
+    destruct (is_phi instrs i).
+    - simpl. unfold apply_mapping. simpl. change (value (mkS (smap s) (rm i (swork s))) i) with (value s i).
+      fold (phi_val i (value s)). destruct (eqv (phi_val i (value s)) (value s i)); reflexivity.
+    - destruct (tself i (value s)) as [x|]; simpl; [| reflexivity].
+      unfold apply_mapping. simpl. change (value (mkS (smap s) (rm i (swork s))) i) with (value s i).
+      destruct (eqv x (value s i)); reflexivity.
+  Qed.
+
+  Record SInv (s : sstate) : Prop := {
+    sinv_lt : forall i, In i (swork s) -> i < n;
+    sinv_fix : forall i, i < n -> ~ In i (swork s) -> fix_at (value s) i
+  }.
+
+  Lemma SInv_init m0 : SInv (sinit instrs m0).
+  Proof.
+    split; unfold sinit; simpl.
+    - intros i H. apply in_seq in H. lia.
+    - intros i Hi H. exfalso. apply H. apply in_seq. lia.
+  Qed.
+
+  Lemma SInv_step s i : SInv s -> In i (swork s) -> SInv (sstep i s).
+  Proof.
+    intros I Hw. pose proof (sinv_lt _ I i Hw) as Hi. rewrite sstep_eq. cbv zeta.
+    assert (Keep : forall w, SInv (mkS (smap s) w) -> True) by auto.
+    assert (Same : fix_at (value s) i -> SInv (mkS (smap s) (rm i (swork s)))).
+    { intros Hfix. split; simpl.
+      - intros j Hj. apply In_rm in Hj. apply (sinv_lt _ I). tauto.
+      - intros j Hj Hn. change (value (mkS (smap s) (rm i (swork s)))) with (value s).
+        destruct (Nat.eq_dec j i).
+        + subst j. exact Hfix.
+        + apply (sinv_fix _ I); auto. intros H. apply Hn. apply In_rm. tauto. }
+    destruct (target i (value s)) as [x|] eqn:T.
+    - destruct (eqv x (value s i)) eqn:E.
+      + apply Same. unfold fix_at. rewrite T. exact E.
+      + split; simpl.
+        * intros j Hj. apply In_fold_enqueue in Hj. destruct Hj as [Hj|Hj].
+          -- apply In_rm in Hj. apply (sinv_lt _ I). tauto.
+          -- apply In_referrers in Hj. tauto.
+        * intros j Hj Hn.
+          set (s' := mkS ((i, x) :: smap s) (fold_left enqueue (referrers instrs i) (rm i (swork s)))).
+          assert (V : forall v, value s' v = if Nat.eqb i v then x else value s v) by (intros v; reflexivity).
+          assert (NR : ~ In i (ops j)).
+          { intros H. apply Hn. apply In_fold_enqueue. right. apply In_referrers. auto. }
+          assert (TE : target j (value s') = target j (value s)).
+          { apply target_reads_ops. intros v Hv. rewrite V. destruct (Nat.eqb_spec i v); auto. subst v. tauto. }
+          unfold fix_at. rewrite TE, V.
+          destruct (Nat.eqb_spec i j).
+          -- subst j. rewrite T. apply eqv_refl.
+          -- assert (NW : ~ In j (swork s)).
+             { intros H. apply Hn. apply In_fold_enqueue. left. apply In_rm. auto. }
+             apply (sinv_fix _ I j Hj NW).
+    - apply Same. unfold fix_at. rewrite T. exact Logic.I.
+  Qed.
+
+  Lemma SInv_steps picks : forall s s', ssteps instrs transfer_of picks s = Some s' -> SInv s -> SInv s'.
+  Proof.
+    induction picks; simpl; intros s s' H I.
+    - inversion H; subst; auto.
+    - destruct (memb a (swork s)) eqn:M; [| discriminate]. apply memb_In in M.
+      eapply IHpicks; eauto. apply SInv_step; auto.
+  Qed.
+
+  Theorem sparse_fixpoint_steps m0 picks s :
+    ssteps instrs transfer_of picks (sinit instrs m0) = Some s -> swork s = [] ->
+    forall i, i < n -> fix_at (value s) i.
+  Proof.
+    intros H W i Hi. pose proof (SInv_steps _ _ _ H (SInv_init m0)) as I.
+    apply (sinv_fix _ I); auto. rewrite W. simpl. tauto.
+  Qed.
+
+  (* ---- least *)
+  Definition mono_tself : Prop :=
+    forall i m m', (forall v, leq (m v) (m' v)) -> forall x, tself i m = Some x ->
+                   exists x', tself i m' = Some x' /\ leq x x'.
+
+  Lemma phi_val_mono i m m' : (forall v, leq (m v) (m' v)) -> leq (phi_val i m) (phi_val i m').
+  Proof.
+    intros H. unfold phi_val.
+    assert (G : forall l d d', leq d d' ->
+              leq (fold_left (fun d e => merge d (m e)) l d) (fold_left (fun d e => merge d (m' e)) l d')).
+    { induction l as [|e l IH]; intros d d' Hd; simpl; auto. apply IH. apply merge_mono; auto. }
+    apply G. apply leq_refl.
+  Qed.
+
+  Lemma target_mono : mono_tself ->
+    forall i m m', (forall v, leq (m v) (m' v)) -> forall x, target i m = Some x ->
+                   exists x', target i m' = Some x' /\ leq x x'.
+  Proof.
+    intros M i m m' H x T. unfold target in *. destruct (is_phi instrs i).
+    - inversion T; subst. eexists. split; eauto. apply phi_val_mono; auto.
+    - eapply M; eauto.
+  Qed.
+
+  Section Least.
+    Variable m0 : list (nat * F).
+    Variable m' : nat -> F.
+    Hypothesis mono : mono_tself.
+    Hypothesis above_init : forall v, leq (lookup m0 v) (m' v).
+    Hypothesis post : forall i x, i < n -> target i m' = Some x -> leq x (m' i).
+
+    Definition SLInv (s : sstate) : Prop := forall v, leq (value s v) (m' v).
+
+    Lemma SLInv_step s i : SInv s -> SLInv s -> In i (swork s) -> SLInv (sstep i s).
+    Proof.
+      intros I LI Hw. pose proof (sinv_lt _ I i Hw) as Hi. rewrite sstep_eq. cbv zeta.
+      destruct (target i (value s)) as [x|] eqn:T; [| exact LI].
+      destruct (eqv x (value s i)); [exact LI|].
+      intros v. change (value (mkS ((i, x) :: smap s) (fold_left enqueue (referrers instrs i) (rm i (swork s)))) v)
+        with (if Nat.eqb i v then x else value s v).
+      destruct (Nat.eqb_spec i v); [| apply LI].
+      subst v. destruct (target_mono mono i (value s) m' LI x T) as (x' & T' & Lx).
+      eapply leq_trans; eauto.
+    Qed.
+
+    Lemma SLInv_steps picks : forall s s', ssteps instrs transfer_of picks s = Some s' -> SInv s -> SLInv s -> SLInv s'.
+    Proof.
+      induction picks; simpl; intros s s' H I LI.
+      - inversion H; subst; auto.
+      - destruct (memb a (swork s)) eqn:M; [| discriminate]. apply memb_In in M.
+        eapply IHpicks; eauto. + apply SInv_step; auto. + apply SLInv_step; auto.
+    Qed.
+
+    Theorem sparse_least_steps picks s :
+      ssteps instrs transfer_of picks (sinit instrs m0) = Some s -> forall v, leq (value s v) (m' v).
+    Proof.
+      intros H. apply (SLInv_steps _ _ _ H (SInv_init m0)). intros v. apply above_init.
+    Qed.
+  End Least.
+
+  Lemma srun_steps pick fuel : forall s s', srun instrs transfer_of pick fuel s = Some s' ->
+    exists picks, ssteps instrs transfer_of picks s = Some s' /\ swork s' = [].
+  Proof.
+    induction fuel; simpl; intros s s' H.
+    - destruct (swork s) eqn:W; [| discriminate]. inversion H; subst. exists []. simpl. auto.
+    - destruct (swork s) eqn:W.
+      + inversion H; subst. exists []. simpl; auto.
+      + rewrite <- W in H. apply IHfuel in H. destruct H as (picks & H1 & H2).
+        exists (pick_ok pick (swork s) :: picks). simpl.
+        assert (M : memb (pick_ok pick (swork s)) (swork s) = true).
+        { apply memb_In. apply pick_ok_In. rewrite W. discriminate. }
+        rewrite M. auto.
+  Qed.
+End SparseProofs.
+
+(* ------------------------------------------------------------------ outside the premise: DESIGN F14 *)
+(* Instruction 0's transfer function writes the value of instruction 1; instruction 2 copies value 1. The solver
+   re-enqueues the referrers of the INSTRUCTION it ran (0, which has none), not of the value that changed (1), so
+   with the schedule 2, 1, 0 it stops in a state that is not a solution. *)
+Definition f14_instrs : list (list nat * bool) := [([], false); ([], false); ([1], false)].
+Definition f14_transfer (i : nat) (m : nat -> N) : list (nat * N) :=
+  match i with 0 => [(1, 5%N)] | 2 => [(2, m 1)] | _ => [] end.
+
+Lemma sparse_wrong_referrers_refuted :
+  exists picks s,
+    @ssteps N BitsSemilattice f14_instrs f14_transfer picks (@sinit N f14_instrs []) = Some s /\
+    swork s = [] /\
+    @value N BitsSemilattice s 2 <> @value N BitsSemilattice s 1.
+Proof.
+  exists [2; 1; 0]. eexists. split; [vm_compute; reflexivity|]. split; [reflexivity|]. vm_compute. discriminate.
+Qed.
+
+(* not proved: termination of the sparse solver for monotone transfer functions over lattices of finite height *)
+Definition sparse_terminates_full_statement : Prop :=
+  forall (F : Type) (L : Semilattice F), SemilatticeLaws F ->
+  forall (instrs : list (list nat * bool)) (tself : nat -> (nat -> F) -> option F) (rank : F -> nat) (H : nat),
+    (forall i m m', (forall v, In v (ops_of instrs i) -> m v = m' v) -> tself i m = tself i m') ->
+    mono_tself tself ->
+    (forall x, rank x <= H) -> (forall a b, leq a b -> eqv b a = false -> rank a < rank b) ->
+    forall pick, exists fuel s,
+      srun instrs (transfer_of tself) pick fuel (sinit instrs []) = Some s.
+
+Lemma sparse_fixpoint_least_run :
+  forall (F : Type) (L : Semilattice F) (LL : SemilatticeLaws F)
+         (instrs : list (list nat * bool)) (tself : nat -> (nat -> F) -> option F)
+         (m0 : list (nat * F)) (pick : list nat -> nat) (fuel : nat) (s : sstate),
+    (forall i m m', (forall v, In v (ops_of instrs i) -> m v = m' v) -> tself i m = tself i m') ->
+    srun instrs (transfer_of tself) pick fuel (sinit instrs m0) = Some s ->
+    (forall i, i < ni instrs -> fix_at instrs tself (value s) i) /\
+    (mono_tself tself ->
+     forall m' : nat -> F,
+       (forall v, leq (lookup m0 v) (m' v)) ->
+       (forall i x, i < ni instrs -> target instrs tself i m' = Some x -> leq x (m' i)) ->
+       forall v, leq (value s v) (m' v)).
+Proof.
+  intros F L LL instrs tself m0 pick fuel s RO H.
+  destruct (srun_steps instrs tself pick fuel _ _ H) as (picks & H1 & H2). split.
+  - eapply sparse_fixpoint_steps; eauto.
+  - intros M m' A P. eapply sparse_least_steps; eauto.
+Qed.
